@@ -87,6 +87,8 @@ def writer_classes(f_good):
             g = r.value.args[0].generators[0]
             if norm(g.iter).startswith("identifier") and isinstance(g.target, ast.Name) and not g.ifs:
                 body_acc.append((r.value.args[0].elt, g.target.id))
+            elif isinstance(g.iter, ast.Call) and norm(g.iter.func) == "range" and "len(identifier)" in norm(g.iter) and isinstance(g.target, ast.Name) and not g.ifs:
+                body_acc.append((r.value.args[0].elt, "identifier[%s]" % g.target.id))
     if not first_rej and not body_rej and not body_acc:
         raise AnalysisError("I1: cannot recognise the shape of %s" % f_good.qualname)
     try:
@@ -199,6 +201,15 @@ def check_c17(ctx, R):
         if isinstance(n, ast.If) and any(isinstance(a, ast.Assign) and isinstance(a.value, ast.BinOp) and isinstance(a.value.left, ast.Constant)
                                          and isinstance(a.value.left.value, str) for a in n.body):
             pguard = n.test
+    if pguard is None:
+        # conditional-expression form: prefix = "" if identifier[0].isalpha() else "&"
+        for n in walk_local(fix.node):
+            if isinstance(n, ast.IfExp) and isinstance(n.body, ast.Constant) and isinstance(n.orelse, ast.Constant) \
+                    and isinstance(n.body.value, str) and isinstance(n.orelse.value, str) and (n.body.value == "") != (n.orelse.value == ""):
+                if n.body.value == "":
+                    pguard, prefix = ast.UnaryOp(op=ast.Not(), operand=n.test), [n.orelse.value]
+                else:
+                    pguard, prefix = n.test, [n.body.value]
     if pguard is None:
         raise AnalysisError("I1: cannot find the guard of the prefix in _characters_fix")
     try:
@@ -320,7 +331,7 @@ def check_c17(ctx, R):
         return False
 
     ncmp = 0
-    for c in walk_local(cg.node):
+    for c in ast.walk(cg.node):
         if isinstance(c, ast.Compare) and len(c.ops) == 1 and isinstance(c.ops[0], (ast.Eq, ast.NotEq)) and any(isinstance(x, ast.Name) and x.id == cg.params[2] for x in ast.walk(c)):
             ncmp += 1
             l, r = c.left, c.comparators[0]
@@ -334,7 +345,16 @@ def check_c17(ctx, R):
     R.count("candidate comparisons in _conflicts_good (I3)", ncmp)
     R.floor("candidate comparisons in _conflicts_good (I3)", 2)
     loops = [lp for lp in walk_local(cg.node) if isinstance(lp, ast.For)]
-    if not loops:
+    comps = [g for c in walk_local(cg.node) if isinstance(c, (ast.GeneratorExp, ast.ListComp, ast.SetComp)) for g in c.generators
+             if norm(g.iter) in cg.params]
+    for g in comps:
+        # any(... for element in objects if <not the element itself>): every sibling is visited; the filter may only drop the element itself
+        extra = [c for c in g.ifs if not any(isinstance(x, ast.Name) and x.id == cg.params[1] for x in ast.walk(c))]
+        if extra:
+            R.bad("I3", "%s|filtered scan" % cg.key, cg.loc(extra[0]), "_conflicts_good leaves siblings out of the conflict test (`%s`)" % short(extra[0], 50))
+        else:
+            R.ok("I3", "the scan visits every sibling (comprehension)", cg.loc())
+    if not loops and not comps:
         raise AnalysisError("I3: _conflicts_good no longer scans the siblings")
     for lp in loops:
         brk = [x for x in ast.walk(lp) if isinstance(x, ast.Break)]
